@@ -213,8 +213,12 @@ def _bind(helper, call, caller, at_stmt):
             if not (isinstance(e, ast.Name) and e.id == name):
                 prelude.append(ast.copy_location(ast.Assign(targets=[ast.Name(id=name, ctx=ast.Store())], value=clone(e)), at_stmt))
     sub_names = {p for p in subst}
+    own_targets = set()
+    if isinstance(at_stmt, ast.Assign):      # `v, w = helper(..)`: the caller's v, w are overwritten by this very statement
+        for t in at_stmt.targets:
+            own_targets |= {x.id for x in ast.walk(t) if isinstance(x, ast.Name) and isinstance(x.ctx, ast.Store)}
     for v in sorted(stored - set(helper.params) - set(helper.kwonly)):
-        if v in used and _live_after(caller, at_stmt, v):
+        if v in used and v not in own_targets and _live_after(caller, at_stmt, v):
             name = v + "_h"
             while name in used:
                 name += "h"
@@ -384,6 +388,18 @@ def _inline_stmt0(st, helper, call, caller, mode, extra=None):
     return prelude + new
 
 
+def _self_assign(st):
+    """`x = x` / `x, y = (x, y)`: left over when a helper's locals coincide with the variables its result is assigned to"""
+    if isinstance(st, ast.Assign) and len(st.targets) == 1:
+        t, v = st.targets[0], st.value
+        if isinstance(t, ast.Name) and isinstance(v, ast.Name) and t.id == v.id:
+            return True
+        if isinstance(t, (ast.Tuple, ast.List)) and isinstance(v, (ast.Tuple, ast.List)) and len(t.elts) == len(v.elts) and \
+                all(isinstance(a, ast.Name) and isinstance(b, ast.Name) and a.id == b.id for a, b in zip(t.elts, v.elts)):
+            return True
+    return False
+
+
 def _call_of(e, helpers, cls):
     """helper called by expression e (a Call), resolved for a caller in class cls, or None"""
     if not isinstance(e, ast.Call):
@@ -458,6 +474,7 @@ def _rewrite_block(stmts, helpers, cls, caller, stats):
             stats.setdefault("failed", []).append(str(ex))
             rep = None
         if rep is not None:
+            rep = [r for r in rep if not _self_assign(r)]
             stats["inlined"] = stats.get("inlined", 0) + 1
             rep = _rewrite_block(rep, helpers, cls, caller, stats) if stats.get("depth", 0) < 3 else rep
             out.extend(rep or [ast.copy_location(ast.Pass(), st)])
